@@ -142,6 +142,11 @@ func (p *sxParser) parse() (*SX, error) {
 				continue
 			}
 			if ch == '"' {
+				if p.pos+1 < len(p.src) && p.src[p.pos+1] == '"' {
+					sb.WriteByte('"') // SMT-LIB escapes a quote inside a literal by doubling it
+					p.pos += 2
+					continue
+				}
 				p.pos++
 				break
 			}
